@@ -68,7 +68,7 @@ class SMMapChartTypes:
         elif chart == SMMapChartTypes.DANCE_SOLO:
             return 6
         elif chart == SMMapChartTypes.DANCE_COUPLE:
-            return 4
+            return 8
         elif chart == SMMapChartTypes.DANCE_THREEPANEL:
             return 3
         elif chart == SMMapChartTypes.DANCE_ROUTINE:
